@@ -1248,7 +1248,8 @@ def _number_reading(ctx: Ctx) -> None:
             isinstance(x, ast.Break) for x in s.body)]
         n_ = fi.params[0]
         if len(brk) != 1 or src(brk[0].test) not in (
-                f"len({res})=={n_}", f"len({res})>={n_}"):
+                f"len({res})=={n_}", f"len({res})>={n_}",
+                f"{n_}==len({res})", f"{n_}<=len({res})"):
             problems.append("reading does not stop when n numbers were "
                             "read")
         tail = [s for s in body if isinstance(s, ast.If) and s.body and
